@@ -31,6 +31,13 @@ def run_suite(wt):
     res = {}
     for m in re.finditer(r"^test (\S+) \.\.\. (ok|FAILED|ignored)", out, re.M):
         res.setdefault(m.group(1), []).append(m.group(2))
+    # a test whose own child process writes to stdout can break the "test x ... ok" line apart:
+    # also read the "failures:" summaries
+    for blk in re.finditer(r"^failures:\n((?:    \S+\n)+)", out, re.M):
+        for name in blk.group(1).split():
+            res.setdefault(name, []).append("FAILED")
+    for m in re.finditer(r"^test (\S+) \.\.\. .*?\b(ok|FAILED)$", out, re.M):
+        res.setdefault(m.group(1), []).append(m.group(2))
     compiled = "error: could not compile" not in out and "error[E" not in out
     return res, compiled, out
 
